@@ -257,7 +257,8 @@ class TableGuard:
         self.canon0 = module_table_canon()
         self.fast0 = None
         self.arr_ids = {id(v) for v in module_tables().values() if _has_array(v)}
-        self.scratch_keys = {k for k, v in module_tables().items() if isinstance(v, (dict, list, set)) and len(v) == 0}
+        self.scratch_keys = {k for k, v in module_tables().items()
+                             if v is None or (isinstance(v, (dict, list, set)) and len(v) == 0)}
         self.layout = self._layout()
         self.bound = dict(module_tables())
         self.fast0 = self._fast()
